@@ -644,4 +644,6 @@ RULES = [
     ("C06.R7", "variant normalisation strips only bases shared by all alleles", r7),
     ("C06.R8", "variant cursor skips only variants strictly left of the read", r8),
 ]
-FLOORS = {"C06.R1": 28, "C06.R2": 6, "C06.R3": 9, "C06.R4": 13, "C06.R5": 10, "C06.R6": 4, "C06.R7": 4, "C06.R8": 4}
+# instance floors: about 60% of the instances confirmed by hand on the reference tree -- a rule that suddenly matches far fewer
+# sites fails the run (exit 2); a clean-up that merges two sites into one does not
+FLOORS = {"C06.R1": 16, "C06.R2": 3, "C06.R3": 5, "C06.R4": 7, "C06.R5": 6, "C06.R6": 2, "C06.R7": 2, "C06.R8": 2}
